@@ -53,6 +53,18 @@ func C12(r *core.Run) int {
 		fat = append(fat, specgen.Case{ID: "ext-keys-fat", Family: "mapfat", Spec: d.Root, Flags: specgen.Flags{Client: true, DoNotEdit: true},
 			CfgRaw: []byte("imports:\n  - value: example.com/verif/pkg\n"), Label: map[string]string{"set": "ext-keys-fat"}})
 	}
+	{
+		// aliases inside reference cycles: what the loader leaves unresolved depends on
+		// its map iteration order; goag's verdict and bytes must not
+		d := specgen.NewDoc("aliascycle")
+		for i := 0; i < 6; i++ {
+			n := fmt.Sprintf("N%c", 'A'+i)
+			d.Comp("schemas", n+"Alias", specgen.Ref("schemas", n+"Tree"))
+			d.Comp("schemas", n+"Tree", specgen.Obj(nil, specgen.M{"label": specgen.Prim("string", ""), "kids": specgen.Arr(specgen.Ref("schemas", n+"Alias")), "next": specgen.Ref("schemas", n+"Alias")}))
+		}
+		d.Op("/t", "post", specgen.M{"requestBody": specgen.M{"content": specgen.JSONContent(specgen.Ref("schemas", "NATree"))}, "responses": specgen.M{"200": specgen.Resp("ok", specgen.Ref("schemas", "NCAlias"))}})
+		fat = append(fat, specgen.Case{ID: "alias-cycles-fat", Family: "mapfat", Spec: d.Root, Flags: specgen.Flags{Client: true, DoNotEdit: true}, Label: map[string]string{"set": "alias-cycles-fat"}})
+	}
 	var corpus []specgen.Case
 	corpus = append(corpus, Sample(specgen.MatrixCases(), nCorpus, r.Seed+3)...)
 	corpus = append(corpus, Sample(specgen.ShapeCases(), nCorpus/4, r.Seed+4)...)
